@@ -27,7 +27,8 @@ META = dict(
          "connection failure before or after applying, one response-handling step per partition) and with Close and its final "
          "attempts 0..Retry.Max, for 2 partitions, offsets 0..2, 2 metadata values, 3 application calls; invariants: "
          "CommittedWasMarked, StoreBackwardsOnlyAfterReset, MarkNeverLowers, ResetNeverRaises, NextOffsetIsPendingOrInitial, "
-         "CleanMeansStored (no lost mark), DirtyClearedOnlyWhenEqual, ClosedAndAccepted. Every behaviour of the small machines "
+         "CleanMeansStored (no lost mark), DirtyClearedOnlyWhenEqual, ClosedAndAccepted, ClosedOnlyAfterExhausted (a mark is given up at "
+         "Close only after Retry.Max+1 final requests carried that partition and were refused for it). Every behaviour of the small machines "
          "(sequential; marks inside the commit window incl. ABA and metadata-only changes) and seeded simulations over 3 partitions on "
          "2 topics are executed on the real code (public API only) and every clause is evaluated by TLC on the recorded "
          "requests, coordinator store and NextOffset results; thorough adds ticker-driven auto-commit with 2-3 marking goroutines.",
@@ -40,7 +41,7 @@ META = dict(
 
 CLAUSES = {"committed_was_marked", "store_backwards_only_after_reset", "mark_never_lowers", "reset_never_raises",
            "next_offset_is_pending_or_initial", "mark_during_flight_is_recommitted", "pending_mark_is_sent_by_next_commit",
-           "closed_and_accepted_implies_store_equals_last_mark"}
+           "closed_and_accepted_implies_store_equals_last_mark", "close_gives_up_only_after_retry_max_refusals"}
 SHUTDOWN_CLAUSES = {"close_hang", "close_panic", "errors_closed_after_close"}
 ONLY = ["offsetmgr*"]
 
@@ -55,6 +56,11 @@ def model_check(ctx):
     bug = ctx.tlc("OffsetManager", "OffsetManager.bug.cfg", workers=1, timeout=300, name="bug")
     if bug.timed_out or bug.error or not bug.violated:
         raise vlib.Inconclusive("non-vacuity self-test: the variant that clears dirty unconditionally did not violate the invariants")
+    bug2 = ctx.tlc("OffsetManager", "OffsetManager.bug2.cfg", workers=1, timeout=300, name="bug2")
+    if bug2.timed_out or bug2.error or bug2.violated != "ClosedOnlyAfterExhausted":
+        raise vlib.Inconclusive("non-vacuity self-test: the variant whose Close loop stops when one topic is clean did not violate "
+                                "ClosedOnlyAfterExhausted")
+    bug.second = bug2.violated
     return mc, bug
 
 
@@ -73,10 +79,11 @@ def gen_one(ctx, cfg, sim, seed):
 def gen_cases(ctx, out):
     thorough = ctx.tier == "thorough"
     plan = [("OffsetManager.gen.seq.cfg", 0), ("OffsetManager.gen.win.cfg", 0), ("OffsetManager.gen.win3.cfg", 0),
+            ("OffsetManager.gen.close.cfg", 0),
             ("OffsetManager.sim.seq.cfg", 6000 if thorough else 300), ("OffsetManager.sim.win.cfg", 9000 if thorough else 400)]
     stats = []
     n = 0
-    with concurrent.futures.ThreadPoolExecutor(max_workers=5) as ex:
+    with concurrent.futures.ThreadPoolExecutor(max_workers=6) as ex:
         futs = [ex.submit(gen_one, ctx, cfg, sim, ctx.seed) for cfg, sim in plan]
         res = [f.result() for f in futs]
     with open(out, "w") as f:
@@ -174,7 +181,8 @@ def run(ctx):
         "samples": samples[:3],
         "model_states": mc.distinct,
         "model_depth": mc.depth,
-        "nonvacuity_selftest": "variant clearing dirty unconditionally violates %s" % bug.violated,
+        "nonvacuity_selftest": "variant clearing dirty unconditionally violates %s; variant whose Close loop stops when one topic is clean "
+                               "violates %s" % (bug.violated, bug.second),
         "behaviours": gstats,
         "executions_by_family": executed,
         "observer_stats": stats,
@@ -183,9 +191,11 @@ def run(ctx):
         "explanation": "exhaustive TLC run of the offset-manager machine with the clauses as invariants; every behaviour of the small "
                        "sequential / commit-window machines plus seeded simulations%s executed on the real offsetManager; TLC evaluated "
                        "the clauses on %d recorded executions (%d marks, %d of them inside a commit window of which %d had to be and were "
-                       "re-sent by the next commit; %d commit requests, %d not fully accepted; %d Close calls with the accepting premise)"
+                       "re-sent by the next commit; %d commit requests, %d not fully accepted; %d Close calls with the accepting premise, %d Close calls that had to retry after a "
+                       "partial refusal and stored everything, %d that really exhausted Retry.Max+1 attempts for a partition)"
                        % (" and the free-running ticker family" if thorough else "", stats["traces"], stats["marks"], stats["flight_marks"],
-                          stats["flight_recommitted"], stats["requests"], stats["faulty_requests"], stats["closes_premise"]),
+                          stats["flight_recommitted"], stats["requests"], stats["faulty_requests"], stats["closes_premise"],
+                          stats["closes_retried_partial_refusal"], stats["closes_exhausted"]),
     }
     return vlib.finish(ctx, "model_checking", cov, viols,
                        ["one committer at a time (manual Commit calls are sequential; the ticker is the only committer in the ticker family)",
